@@ -509,3 +509,99 @@ func TestC06_Real(t *testing.T) {
 	p := kit.Prop[C06Batch]{ID: "C06", Name: "Real", Quick: 48, Thorough: 2400, Gen: genC06Batch(32), Run: runC06Batch}
 	p.Execute(t)
 }
+
+// ---- a replay across a configuration reload -----------------------------------------------------------
+// The real server (main package, replay history on): a valid handshake is accepted, the configuration is
+// reloaded (unchanged, or with another key added), and the recorded handshake is presented again. It is a replay
+// like any other: no authentication, nothing written back, not closed while the client keeps the connection open.
+
+type C06Reload struct {
+	Cipher  string `json:"cipher"`
+	Reloads int    `json:"reloads"`
+	AddKey  bool   `json:"add_key"`
+	Seed    int64  `json:"seed"`
+}
+
+func genC06Reload(t *rapid.T) C06Reload {
+	return C06Reload{Cipher: rapid.SampledFrom([]string{kit.Chacha, kit.AES256, kit.AES192}).Draw(t, "cipher"), Reloads: rapid.IntRange(0, 3).Draw(t, "reloads"), AddKey: rapid.Bool().Draw(t, "addKey"), Seed: rapid.Int64Range(1, 1<<40).Draw(t, "seed")}
+}
+
+func runC06Reload(c C06Reload, info *kit.Info) *kit.Finding {
+	s, why := newMainSession(c.Seed)
+	if s == nil {
+		info.Skipped = why
+		return nil
+	}
+	defer s.close()
+	ks := kit.KeySpec{ID: "user", Cipher: c.Cipher, Secret: "across-reload"}
+	cfg := func(extra bool) string {
+		g := GConfig{Services: []GService{{Listeners: []GListener{{"tcp", "127.0.0.1", 2}}, Keys: []kit.KeySpec{ks}}}}
+		if extra {
+			g.Services[0].Keys = append(g.Services[0].Keys, kit.KeySpec{ID: "new", Cipher: kit.Chacha, Secret: "added-later"})
+		}
+		return s.writeConfig(g.renderYAML(s.pt))
+	}
+	if r, err := s.ex.Do(map[string]any{"cmd": "run", "config": cfg(false), "replay_history": 1000}, 20*time.Second); err != nil {
+		return execFailure(s, err)
+	} else if !r.OK {
+		info.Skipped = "configuration did not load: " + r.Err
+		return nil
+	}
+	addr := s.pt.addr("127.0.0.1", 2)
+	key := ks.Key()
+	wire := kit.EncodeStream(key, kit.DetBytes(c.Seed, key.SaltSize()), append(kit.SocksAddr("127.0.0.1", 9, false), "x"...), nil)
+	present := func() (auth bool, closedAfter time.Duration, wrote int, err error) {
+		cn, derr := kit.DialTCP(addr, 3*time.Second)
+		if derr != nil {
+			return false, 0, 0, derr
+		}
+		defer cn.Close()
+		local := cn.LocalAddr().String()
+		from := len(s.ex.Events)
+		t0 := time.Now()
+		cn.Write(wire)
+		cn.SetReadDeadline(time.Now().Add(1500 * time.Millisecond))
+		n, rerr := io.ReadFull(cn, make([]byte, 64))
+		wrote = n
+		if rerr != nil && !kit.IsTimeout(rerr) {
+			closedAfter = time.Since(t0)
+		}
+		s.ex.Drain()
+		for _, e := range s.ex.Events[from:] {
+			if e.Kind == "tcp_auth" && e.Remote == local {
+				auth = true
+			}
+		}
+		return
+	}
+	auth, _, _, err := present()
+	if err != nil {
+		return execFailure(s, err)
+	}
+	if !auth {
+		return kit.Violation("probe:original-not-served", "first presentation of a valid handshake was not authenticated")
+	}
+	for i := 0; i < c.Reloads; i++ {
+		if r, err := s.ex.Do(map[string]any{"cmd": "reload", "config": cfg(c.AddKey && i%2 == 0)}, 20*time.Second); err != nil {
+			return execFailure(s, err)
+		} else if !r.OK {
+			info.Skipped = "reload failed: " + r.Err
+			return nil
+		}
+	}
+	auth, closedAfter, wrote, err := present()
+	if err != nil {
+		return execFailure(s, err)
+	}
+	info.Class(fmt.Sprintf("reloads-between:%d", c.Reloads))
+	info.NonTrivial, info.Steps = c.Reloads > 0, 2+c.Reloads
+	if auth || wrote > 0 || closedAfter > 0 {
+		return kit.Violation("probe:replay-served", "a handshake accepted before %d configuration reload(s) was presented again afterwards (replay history 1000): authenticated=%v, %d bytes written back, closed by the server after %v (a replay gets nothing and stays open while the client does)", c.Reloads, auth, wrote, closedAfter)
+	}
+	return nil
+}
+
+func TestC06_AcrossReload(t *testing.T) {
+	p := kit.Prop[C06Reload]{ID: "C06", Name: "AcrossReload", Quick: 12, Thorough: 600, Gen: genC06Reload, Run: runC06Reload}
+	p.Execute(t)
+}
